@@ -80,4 +80,45 @@ theorem autoCert_sound {ncool nint : Nat} {tyf : Nat → Nat} {nb : Nat → List
     rw [hj] at h6
     simpa using h6
 
+/-- the total donor map permutes the cells `< hi`: it maps them to cells `< hi`, injectively -/
+theorem donorRingCert_sound {lo hi : Nat} {d : Nat → Option Nat} (hle : lo ≤ hi) (h : donorRingCert lo hi d = true) :
+    (∀ i, i < hi → donorN lo d i < hi)
+    ∧ (∀ i, i < hi → ∀ j, j < hi → donorN lo d i = donorN lo d j → i = j) := by
+  unfold donorRingCert at h
+  simp only [Bool.and_eq_true, decide_eq_true_eq, List.all_eq_true, List.mem_map, List.mem_range,
+    forall_exists_index, and_imp, forall_apply_eq_imp_iff₂] at h
+  obtain ⟨hnd, hrange⟩ := h
+  have hinj := (List.nodup_map_iff_inj_on List.nodup_range).mp hnd
+  -- exterior cells: value in the ring
+  have hext : ∀ i, lo ≤ i → i < hi → lo ≤ donorN lo d i ∧ donorN lo d i < hi := by
+    intro i h1 h2
+    have := hrange (i - lo) (by omega)
+    have e : lo + (i - lo) = i := by omega
+    rw [e] at this
+    unfold donorN
+    rw [if_neg (by omega)]
+    exact this
+  refine ⟨fun i hi => ?_, fun i hi j hj hij => ?_⟩
+  · by_cases hc : i < lo
+    · unfold donorN; rw [if_pos hc]; exact hi
+    · exact (hext i (by omega) hi).2
+  · by_cases hci : i < lo <;> by_cases hcj : j < lo
+    · unfold donorN at hij; rw [if_pos hci, if_pos hcj] at hij; exact hij
+    · have := (hext j (by omega) hj).1
+      unfold donorN at hij this
+      rw [if_pos hci] at hij
+      omega
+    · have := (hext i (by omega) hi).1
+      unfold donorN at hij this
+      rw [if_pos hcj] at hij
+      omega
+    · have hk := hinj (i - lo) (List.mem_range.mpr (by omega)) (j - lo) (List.mem_range.mpr (by omega))
+      have ei : lo + (i - lo) = i := by omega
+      have ej : lo + (j - lo) = j := by omega
+      rw [ei, ej] at hk
+      unfold donorN at hij
+      rw [if_neg hci, if_neg hcj] at hij
+      have := hk hij
+      omega
+
 end Dassh.Table
